@@ -12,7 +12,7 @@
 (*        with all preimages known has one)                                *)
 (*   C09  max_weight_to_satisfy and the plan's sizes bound what was built  *)
 (***************************************************************************)
-EXTENDS Verify, Json, IOUtils, SequencesExt, FiniteSetsExt
+EXTENDS Verify, Policy, Json, IOUtils, SequencesExt, FiniteSetsExt
 
 ASSUME TLCSet(1, ndJsonDeserialize(IOEnv.TRACE))
 Rec == TLCGet(1)
@@ -60,10 +60,21 @@ JudgeRes(ev, j) ==
     ELSE ((~keypath /\ \A q \in 1..n : ~(ev.st.sane[q] /\ HashesIn(ev.leaves[q]) \subseteq w.pre /\ SatSet(ev.leaves[q], w, "tap") # {}))
           \/ Report("C02", "missed_nonmall", ev, j, r.route))
 
+\* C07 on the descriptor: when the library lifts it, the policy is true in exactly the worlds in
+\* which the output can be spent (key path or some leaf); refusing to lift is always allowed
+JudgeLift(ev) ==
+  /\ (ev.lift.st # "panic" \/ Report("C11", "tr_lift_panic", ev, 0, ""))
+  /\ (ev.lift.st # "ok" \/
+      \A j \in 1..Len(ev.res) :
+         LET w == World(ev.res[j].w) IN
+         Eval(ev.lift.pol, w) = ((ev.ik \in w.sigs) \/ (\E q \in 1..Len(ev.leaves) : Spendable(ev.leaves[q], w, "tap")))
+         \/ Report("C07", "tr_lift_differs", ev, j, <<w.sigs, w.pre, w.env.lock, w.env.seq>>))
+
 JudgeEvent(ev) ==
   IF ev.parse # "ok"
   THEN Report("INFO", "parse_" \o ev.parse, ev, 0, ev.msg)
-  ELSE \A j \in 1..Len(ev.res) : JudgeRes(ev, j)
+  ELSE /\ \A j \in 1..Len(ev.res) : JudgeRes(ev, j)
+       /\ JudgeLift(ev)
 
 Inv == i > 0 => JudgeEvent(Rec[i])
 Post == PrintT("TRACE_DONE " \o ToJson(<<Len(Rec), TLCGet("stats").distinct>>))
